@@ -3,8 +3,7 @@ CONSTANTS MaxNodes = 3
 MaxDepth = 3
 DocMode = FALSE
 Vocab <- VocabFrag
-TextKinds <- TK4
-OptSets <- Opts4
-
-INVARIANTS BuilderSound DesignRefines
+TextKinds <- TK6
+OptSets <- AllOpts
+INVARIANTS BuilderSound DesignRefines Emit
 CHECK_DEADLOCK FALSE
